@@ -1,6 +1,7 @@
 package main
 
 import (
+	"encoding/binary"
 	"errors"
 	"io"
 	"net"
@@ -56,15 +57,53 @@ type recConn struct {
 	closedC chan struct{} // closed when the Mux calls Close on its trunk
 	bigOnce sync.Once
 	bigC    chan struct{} // closed when the first Write of a MiB or more starts
-	// cutErr: "" = errCut; "timeout" / "temporary" = a net.Error of that kind, and the trunk is only stalled: when
-	// the failing Write was partial (n != 0) later Writes go through again ("the peer drains again") — a Mux that
-	// has not closed itself then sends frames into a stream that has lost frame synchronisation
+	// cutErr: "" = errCut, and the outgoing direction is down for good.  "timeout" / "temporary" = a net.Error of
+	// that kind, and the failure is transient (an expired write deadline, the peer drains again): the ONE trunk.Write
+	// call that crosses the budget returns (n, error) — n may be 0 — and every later call goes through.  A Mux that has
+	// not closed itself although a frame is half out (partial header or payload, or a payload that failed with n = 0
+	// after its header) then sends the next frames into a stream that has lost frame synchronisation
 	cutErr string
+	// framing of what went out so far (the wrapper has to know whether a failure falls between two frames)
+	hdr  []byte // bytes of an incomplete frame header
+	need int    // payload bytes of the current frame still to come
 }
 
-func newRec(c net.Conn, budget int) *recConn {
-	r := &recConn{Conn: c, budget: budget, keep: true, closedC: make(chan struct{}), bigC: make(chan struct{})}
-	if budget == 0 {
+// track follows the frames in the bytes that went out.
+func (r *recConn) track(b []byte) {
+	for len(b) > 0 {
+		if r.need == 0 {
+			take := 8 - len(r.hdr)
+			if take > len(b) {
+				take = len(b)
+			}
+			r.hdr = append(r.hdr, b[:take]...)
+			b = b[take:]
+			if len(r.hdr) == 8 {
+				r.need = int(binary.BigEndian.Uint32(r.hdr[4:]))
+				r.hdr = r.hdr[:0]
+			}
+			continue
+		}
+		take := r.need
+		if take > len(b) {
+			take = len(b)
+		}
+		r.need -= take
+		b = b[take:]
+	}
+}
+
+// midFrame: part of a frame is out (header bytes, or a header whose payload is not complete).  A failure
+// there has to make the Mux close itself — the wrapper leaves the trunk alone, so that which error gets latched
+// does not depend on a race with the peer's reaction, and a Mux that does not close shows (the peer's input
+// never ends).  A failure between two frames leaves the Mux open by design: then the wrapper ends the peer's input.
+func (r *recConn) midFrame() bool { return r.need > 0 || len(r.hdr) > 0 }
+
+func newRec(c net.Conn, budget int) *recConn { return newRecErr(c, budget, "") }
+
+func newRecErr(c net.Conn, budget int, cutErr string) *recConn {
+	r := &recConn{Conn: c, budget: budget, keep: true, closedC: make(chan struct{}), bigC: make(chan struct{}), cutErr: cutErr}
+	if budget == 0 && cutErr == "" {
 		// nothing may be written at all: the outgoing direction is already down
 		r.broken = true
 		r.halfClose()
@@ -118,11 +157,13 @@ func (r *recConn) Write(p []byte) (int, error) {
 		}
 		r.record(p[:n])
 		r.budget -= n
+		if r.cutErr != "" {
+			r.budget = -1 // a stall, not a cut: the trunk takes bytes again
+			return n, r.failure()
+		}
 		r.broken = true
-		if n == 0 {
+		if n == 0 && !r.midFrame() {
 			r.halfClose()
-		} else if r.cutErr != "" {
-			r.broken, r.budget = false, -1 // a stall, not a cut: the trunk takes bytes again
 		}
 		return n, r.failure()
 	}
@@ -130,15 +171,18 @@ func (r *recConn) Write(p []byte) (int, error) {
 	r.record(p[:n])
 	if r.budget >= 0 {
 		r.budget -= n
-		if r.budget == 0 {
+		if r.budget == 0 && r.cutErr == "" {
 			r.broken = true
-			r.halfClose()
+			if !r.midFrame() {
+				r.halfClose()
+			}
 		}
 	}
 	return n, err
 }
 
 func (r *recConn) record(p []byte) {
+	r.track(p)
 	r.count += len(p)
 	if r.keep {
 		r.log = append(r.log, p...)
